@@ -91,6 +91,15 @@ Proof.
   destruct w; discriminate.
 Qed.
 
+Lemma tinv_recv g nw ts : tinv g nw ts -> tinv g nw (recv_ts ts).
+Proof.
+  intro T. destruct T. split; simpl; intros; try discriminate; auto.
+  destruct w; discriminate.
+Qed.
+
+Lemma tinv_ended g nw ts r : tinv g nw ts -> tinv g nw (ended_ts ts r).
+Proof. intro T. destruct r; [now apply tinv_done|now apply tinv_recv]. Qed.
+
 Lemma awaiting_total g nw ts : tinv g nw ts -> awaiting (pcs ts) = true ->
   d_total (tm ts) = arm_total g (cfg ts) (started ts).
 Proof.
@@ -345,9 +354,10 @@ Proof.
     + now apply tinv_head.
     + now apply tinv_big_read.
     + now apply tinv_big_pause.
-    + now apply tinv_done.
+    + now apply tinv_ended.
     + now apply tinv_read.
     + now apply tinv_failed.
+    + now apply tinv_done.
     + now apply tinv_failed.
     + now apply tinv_failed.
     + now apply tinv_latch_total.
